@@ -1,84 +1,157 @@
-"""C06 compiler side: the emitted macro function takes its parameters in the order Macro.__call__ builds them.
+"""C06 compiler side: the emitted macro function takes its parameters in the order Macro.__call__ builds them,
+and the parser aligns defaults with the trailing parameters.
 
-Shape bound (stated): the macro node has a CONCRETE list of n <= 3 parameters and d <= n defaults; parameter names,
-bodies, defaults and every flag are symbolic.  (macro_body appends to local lists inside its loops, which the
-star-summarisation of the emission engine cannot abstract; hence the bound on n.)
+Functions under contract (real source, run symbolically): CodeGenerator.macro_body, macro_def, visit_Macro,
+visit_CallBlock, Parser.parse_signature.
 
-  C06.emit.order      def macro(<declared params in order>, [caller], [kwargs], [varargs]) and the MacroRef flags:
+Shape bound of the macro_body runs (stated): the macro node has a CONCRETE list of n <= 3 parameters (CallBlock: n <= 2)
+and d <= n defaults; parameter names, body, defaults and the read-sets of the body are symbolic; is_async is fixed per
+task.  (macro_body appends to local lists inside its loops, which the star-summarisation of the emission engine cannot
+abstract; hence the bound on n.)  parse_signature is proved for parameter lists of arbitrary length (loop invariant).
+
+  C06.emit.macro_body   (order)  def macro(<declared params in order>, [caller], [kwargs], [varargs]) and the MacroRef flags:
                       accesses_caller iff `caller` is read undeclared in the body; the implicit caller parameter is declared
                       iff that holds and no explicit `caller` parameter exists; kwargs/varargs declared (and flagged) iff read
-                      undeclared and not shadowed by a declared parameter of that name
-  C06.emit.defaults   default k of d belongs to parameter n-d+k, emitted as `if p is missing: p = <default>` in parameter
-                      order; a parameter without default becomes undefined(...); an explicit caller without default is rejected
+                      undeclared and not shadowed by a declared parameter of that name -- exactly the list Macro.__call__
+                      builds from (arguments, caller, catch_kwargs, catch_varargs)
+                      (defaults) default k of d belongs to parameter n-d+k, emitted as `if p is missing: p = <default>` in
+                      parameter order, evaluated in the macro's own frame after the earlier parameters are stored; a
+                      parameter without default becomes undefined(..., name=<its name>); an explicit caller without default
+                      is rejected
   C06.emit.macro_def  Macro(environment, macro, name, (names...), accesses_kwargs, accesses_varargs, accesses_caller, autoescape)
                       matches the parameter order of runtime.Macro.__init__
+  C06.emit.visit_Macro / visit_CallBlock   the Macro object built from macro_body's (frame, macro_ref) is bound to the
+                      macro's name (exported at top level unless private) / to `caller`, which the call block forwards
+  C06.parse_signature defaults align with the trailing parameters; a non-default after a default is rejected
 """
 from __future__ import annotations
 
 import ast
 import inspect
 import itertools
+import time
 import z3
 
-from pyvc.contract import Res, FnTask, Task
+from pyvc.contract import Res, FnTask, Task, VC
+from pyvc.emitcheck import EmitTask
 from pyvc import emit
-from pyvc.values import HList, Unsupported, Sym
+from pyvc.values import HList, HObj, Unsupported, Sym, Ref, Event, Exc, State, fresh, fresh_name, sym, Obj
 from pyvc.interp import Raised
+from pyvc.stmts import LoopSpec
+from pyvc.smt import to_term, model_value, check_sat
 from pyvc import abstract as A
 
 import jinja2.nodes as N
 import jinja2.compiler as C
 import jinja2.runtime as R
+import jinja2.lexer as L
+import jinja2.parser as P
+from jinja2.exceptions import TemplateAssertionError, TemplateSyntaxError
 
+
+# ------------------------------------------------------------------------------------------- native oracle
 
 def native_macros(w=None):
     """Native oracle: macro calling rules on a family of real templates (defaults referring to earlier
-    parameters, implicit caller/kwargs/varargs, explicit caller)."""
+    parameters, implicit caller/kwargs/varargs, explicit caller, call blocks with parameters, module calls)."""
     import jinja2
-    env = jinja2.Environment()
+    problems = []
     cases = [
         ("{% macro m(a, b=a, c=b) %}{{ a }}|{{ b }}|{{ c }}{% endmacro %}{{ m(1) }};{{ m(1, 2) }};{{ m(1, c=3) }}", "1|1|1;1|2|2;1|1|3"),
+        ("{% macro m(a, b, c=3, d=4) %}{{ a }}{{ b }}{{ c }}{{ d }}{% endmacro %}{{ m(1, 2) }};{{ m(1, 2, 5) }};{{ m(1, 2, d=6) }}", "1234;1254;1236"),
+        ("{% macro m(a, b=2) %}{{ a }}{{ b }}{% endmacro %}{{ m(b=1, a=0) }}", "01"),
         ("{% macro m(a) %}{{ a }}{{ varargs }}{{ kwargs }}{% endmacro %}{{ m(1, 2, 3, x=4) }}", "1(2, 3){'x': 4}"),
+        ("{% macro m(a) %}{{ a }}{{ kwargs }}{{ varargs }}{% endmacro %}{{ m(1, 2, 3, x=4) }}", "1{'x': 4}(2, 3)"),
         ("{% macro m(a) %}{{ a }}{% endmacro %}{{ m() }}|", "|"),
         ("{% macro m(a, b=2) %}{{ caller() }}{{ a }}{{ b }}{% endmacro %}{% call m(1) %}C{% endcall %}", "C12"),
+        ("{% macro m(a) %}{{ caller() }}{{ kwargs }}{{ varargs }}{% endmacro %}{% call m(1, 2, k=3) %}C{% endcall %}", "C{'k': 3}(2,)"),
+        ("{% macro m(a) %}{{ caller(a, 5) }}{% endmacro %}{% call(x, y=7, z=8) m(1) %}{{ x }}{{ y }}{{ z }}{% endcall %}", "158"),
         ("{% macro m(a, caller=none) %}{{ a }}{{ caller }}{% endmacro %}{{ m(1) }}", "1None"),
         ("{% macro m(caller=None, b=1) %}{{ caller }}|{{ b }}{% endmacro %}{{ m(5) }}", "5|1"),
         ("{% macro m(kwargs) %}{{ kwargs }}{% endmacro %}{{ m(7) }}", "7"),
+        ("{% macro m(varargs) %}{{ varargs }}{% endmacro %}{{ m(7) }}", "7"),
         ("{% set o = 9 %}{% macro m(a=o) %}{{ a }}{% endmacro %}{{ m() }}{{ m(1) }}", "91"),
+        ("{% macro m(a, b=a ~ 'x') %}{{ b }}{% endmacro %}{{ m('q') }}", "qx"),
     ]
-    problems = []
-    for src, want in cases:
-        try:
-            got = env.from_string(src).render()
-        except Exception as ex:
-            got = f"{type(ex).__name__}: {ex}"
-        if got != want:
-            problems.append(f"{src!r}: got {got!r}, documented {want!r}")
-    for src, exc in [("{% macro m(a) %}{{ a }}{% endmacro %}{{ m(1, 2) }}", TypeError), ("{% macro m(a) %}{{ a }}{% endmacro %}{{ m(1, x=2) }}", TypeError)]:
-        try:
-            env.from_string(src).render()
-            problems.append(f"{src!r}: no {exc.__name__}")
-        except exc:
-            pass
-        except Exception as ex:
-            problems.append(f"{src!r}: {type(ex).__name__} instead of {exc.__name__}")
+    for is_async in (False, True):
+        env = jinja2.Environment(enable_async=is_async)
+        for src, want in cases:
+            try:
+                got = env.from_string(src).render()
+            except Exception as ex:
+                got = f"{type(ex).__name__}: {ex}"
+            if got != want:
+                problems.append(f"{src!r} (async={is_async}): got {got!r}, documented {want!r}")
+        for src, exc in [("{% macro m(a) %}{{ a }}{% endmacro %}{{ m(1, 2) }}", TypeError), ("{% macro m(a) %}{{ a }}{% endmacro %}{{ m(1, x=2) }}", TypeError),
+                         ("{% macro m(a) %}{{ a }}{{ kwargs }}{% endmacro %}{{ m(1, 2) }}", TypeError), ("{% macro m(a) %}{{ a }}{{ varargs }}{% endmacro %}{{ m(1, x=2) }}", TypeError),
+                         ("{% macro m(caller) %}{{ caller() }}{% endmacro %}", jinja2.TemplateAssertionError),
+                         ("{% macro m(a=1, b) %}{% endmacro %}", jinja2.TemplateSyntaxError)]:
+            try:
+                env.from_string(src).render()
+                problems.append(f"{src!r} (async={is_async}): no {exc.__name__}")
+            except exc:
+                pass
+            except Exception as ex:
+                problems.append(f"{src!r} (async={is_async}): {type(ex).__name__} instead of {exc.__name__}")
+    # the flags the runtime object carries
+    env = jinja2.Environment()
+    mod = env.from_string("{% macro p(a) %}{{ a }}{% endmacro %}{% macro k(a) %}{{ kwargs }}{% endmacro %}{% macro v(a) %}{{ varargs }}{% endmacro %}"
+                          "{% macro c(a) %}{{ caller() }}{% endmacro %}{% macro s(kwargs, varargs) %}{{ kwargs }}{{ varargs }}{% endmacro %}").module
+    flags = {nm: (getattr(mod, nm).catch_kwargs, getattr(mod, nm).catch_varargs, getattr(mod, nm).caller) for nm in "pkvcs"}
+    want = {"p": (False, False, False), "k": (True, False, False), "v": (False, True, False), "c": (False, False, True), "s": (False, False, False)}
+    if flags != want:
+        problems.append(f"(catch_kwargs, catch_varargs, caller) of module macros: {flags}, documented {want}")
+    try:
+        if mod.p(1) != "1" or mod.k(1, x=2) != "{'x': 2}" or mod.v(1, 2) != "(2,)":
+            problems.append("calling module macros from Python differs from template calls")
+    except Exception as ex:
+        problems.append(f"calling module macros from Python: {type(ex).__name__}: {ex}")
     return (bool(problems), "; ".join(problems[:3]) or "macro calling template family agrees with the documented rules")
+
+
+# ------------------------------------------------------------------------------------------- engine configuration
+
+def _marker(name):
+    def h(I_, st, args, kwargs, node):
+        st.trace.append(Event("call", name, args[1:], kwargs, None, lineno=getattr(node, "lineno", None)))
+        return [(st, None)]
+    return h
+
+
+def configure_macro_body(I):
+    """push/pop_parameter_definitions and mark_parameter_stored only keep the book for visit_Name's
+    "parameter not yet stored" check (their effect on what visit_Name emits is C02's concern): abstract
+    callees that leave an event; every self.visit(child, frame) additionally records the frame it was given."""
+    for nm in ("push_parameter_definitions", "pop_parameter_definitions", "mark_parameter_stored"):
+        I.specs[f"CodeGenerator.{nm}"] = _marker(nm)
+    base_visit = I.specs["CodeGenerator.visit"]
+
+    def visit_spec(I_, st, args, kwargs, node):
+        st.trace.append(Event("call", "visit", list(args[1:]), kwargs, None, lineno=getattr(node, "lineno", None)))
+        return base_visit(I_, st, args, kwargs, node)
+
+    I.specs["CodeGenerator.visit"] = visit_spec
+
+
+SPECIAL = ("caller", "kwargs", "varargs")
 
 
 class MacroBody(Task):
     kind = "emission"
 
-    def __init__(self, n, d, node_cls_name="Macro"):
-        self.n, self.d, self.cls_name = n, d, node_cls_name
+    def __init__(self, n, d, node_cls_name="Macro", is_async=False):
+        self.n, self.d, self.cls_name, self.is_async = n, d, node_cls_name, is_async
         self.prop = "C06"
-        self.name = f"C06.emit.macro_body[{node_cls_name},n={n},d={d}]"
-        self.bound_text = "parameter list length n <= 3 (concrete), names/defaults/body/flags symbolic"
+        self.name = f"C06.emit.macro_body[{node_cls_name},n={n},d={d},{'async' if is_async else 'sync'}]"
+        self.bound_text = "parameter list length n <= 3 (concrete list; CallBlock n <= 2), names/defaults/body/read-sets symbolic"
 
     def replay(self, w):
         return native_macros(w)
 
+    def finding_key(self, res):
+        return (res.detail or "").split(": ", 1)[-1][:80]
+
     def run(self, tier, seed):
-        import time
         t0 = time.time()
         n, d = self.n, self.d
         cls = getattr(N, self.cls_name)
@@ -89,46 +162,81 @@ class MacroBody(Task):
             self.arg_refs, self.def_refs = args, defs
             return {"args": st.alloc(HList(items=args), initial=True), "defaults": st.alloc(HList(items=defs), initial=True)}
 
+        def pre(st, g, nd):
+            # requires: parameter names pairwise distinct (the parser's obligation, C01)
+            nms = [st.get(r) for r in self.arg_refs]
+            terms = []
+            for h in nms:
+                v = h.lazy["name"](st, f"{h.path}.name")
+                h.fields["name"] = v
+                terms.append(v.t)
+            for i in range(n):
+                for j in range(i + 1, n):
+                    st.assume(terms[i] != terms[j])
+
         try:
-            scs, I = emit.run_visitor("jinja2.compiler:CodeGenerator.macro_body", cls, buffer=None, node_fields=fields)
+            scs, I = emit.run_visitor("jinja2.compiler:CodeGenerator.macro_body", cls, buffer=None, node_fields=fields,
+                                      configure=configure_macro_body, env_fields={"is_async": self.is_async}, pre=pre)
         except Unsupported as ex:
             return [Res(self.name + ".engine", "unknown", "pyvc-emit", time.time() - t0, f"unsupported: {ex}", self.kind)]
         res = []
         for i, sc in enumerate(scs):
+            t1 = time.time()
             fails = self.check(sc)
             nm = f"{self.name}#p{i}"
             if fails:
-                res.append(Res(nm, "refuted", "pyvc-emit", 0, f"schema `{sc.describe()[:260]}`: " + "; ".join(fails[:3]), self.kind,
-                               witness={"schema": sc.describe()[:400], "n": n, "d": d}))
+                res.append(Res(nm, "refuted", "pyvc-emit", time.time() - t1, f"schema `{sc.describe()[:260]}`: " + "; ".join(fails[:3]), self.kind,
+                               witness={"schema": sc.describe()[:400], "n": n, "d": d, "path_condition": [str(c)[:80] for c in sc.pc][:12]}))
             else:
-                res.append(Res(nm, "discharged", "pyvc-emit", 0, "", self.kind))
+                res.append(Res(nm, "discharged", "pyvc-emit", time.time() - t1, "", self.kind))
         if not res:
             res.append(Res(self.name + ".paths", "error", "pyvc-emit", 0, "no paths", self.kind))
         return res
 
+    # ---- the predicate ---------------------------------------------------------------------------------
     def check(self, sc):
         n, d = self.n, self.d
         st = sc.st
         names = [st.get(r).fields.get("name") for r in self.arg_refs]
 
-        def name_is(i, s):
-            nm = names[i]
-            if nm is None:
-                return False
-            return sc.holds(nm.t == z3.StringVal(s)) if isinstance(nm, Sym) else nm == s
+        def class_term(i, c_):
+            t = names[i].t
+            return t == z3.StringVal(c_) if c_ != "other" else z3.And(*[t != z3.StringVal(s) for s in SPECIAL])
 
-        def name_isnt(i, s):
-            nm = names[i]
-            if nm is None:
-                return True
-            return sc.holds(nm.t != z3.StringVal(s)) if isinstance(nm, Sym) else nm != s
+        def feasible_classes(i):
+            """the classes 'caller' | 'kwargs' | 'varargs' | 'other' parameter i can have on this path"""
+            for c_ in SPECIAL + ("other",):
+                if sc.holds(class_term(i, c_)):
+                    return [c_]
+            return [c_ for c_ in SPECIAL + ("other",) if not sc.holds(z3.Not(class_term(i, c_)))]
 
+        # a path that does not look at a name's class (e.g. kwargs-or-varargs when the body reads neither) is checked
+        # under every class assignment it admits
+        options = [feasible_classes(i) for i in range(n)]
+        if all(len(o) == 1 for o in options):
+            return self.check_classes(sc, names, [o[0] for o in options])
+        fails = []
+        for combo in itertools.product(*options):
+            extra = [class_term(i, c_) for i, c_ in enumerate(combo)]
+            if check_sat(sc.pc + extra, 2000, 0, use_cvc5=False).status == "unsat":
+                continue
+            sub = emit.Schema(sc.pieces, sc.pc + extra, sc.notes, sc.outcome, sc.st)
+            sub.value, sub.node, sub.gen = sc.value, sc.node, sc.gen
+            fails += self.check_classes(sub, names, list(combo))
+        return fails
+
+    def check_classes(self, sc, names, classes):
+        n, d = self.n, self.d
+        st = sc.st
         und = [e for e in st.trace if e.kind == "call" and e.name == "find_undeclared"]
-        undeclared = st.get(und[0].result) if und else None
+        if len(und) != 1:
+            return [f"the body is analysed {len(und)} times for undeclared special names"]
+        body = st.get(sc.node).fields.get("body")
+        if not (und[0].args and und[0].args[0] == body and sorted(und[0].args[1]) == sorted(SPECIAL)):
+            return ["find_undeclared is not asked for exactly (caller, kwargs, varargs) in node.body"]
+        undeclared = st.get(und[0].result)
 
         def reads(s):
-            if undeclared is None:
-                return None
             t = z3.Select(undeclared.dom, z3.StringVal(s))
             if sc.holds(t):
                 return True
@@ -136,151 +244,551 @@ class MacroBody(Task):
                 return False
             return None
 
-        explicit = [i for i in range(n) if name_is(i, "caller")]
-        no_explicit = all(name_isnt(i, "caller") for i in range(n))
+        r_caller = reads("caller")
+        explicit = [i for i in range(n) if classes[i] == "caller"]
         if sc.outcome == "raise":
-            # the only rejection: an explicit caller parameter without default while caller() is used in the body
-            from jinja2.exceptions import TemplateAssertionError
+            # the only rejection: an explicit caller parameter without default while caller is read in the body
             if sc.value.cls is not TemplateAssertionError:
                 return [f"macro_body raises {sc.value!r}"]
-            ok = reads("caller") is True and explicit and all(i < n - d for i in explicit[:1])
+            ok = r_caller is True and explicit and explicit[0] < n - d
             return [] if ok else ["rejected a macro although its explicit caller has a default / caller is not used"]
+        r_kwargs, r_varargs = reads("kwargs"), reads("varargs")
+        if None in (r_caller, r_kwargs, r_varargs):
+            return ["path does not decide which special names the body reads"]
+        if r_caller and explicit and explicit[0] < n - d:
+            return ["explicit `caller` parameter without default accepted although the body calls caller()"]
         fails = []
+        txt, ph = sc.texts()[0]
         try:
-            txt, ph = sc.texts()[0]
             tree = emit.parse_stmts(txt)
         except SyntaxError as ex:
             return [f"emitted macro function does not parse: {ex.msg}: {txt[:200]!r}"]
-        fn = next((x for x in ast.walk(tree) if isinstance(x, (ast.FunctionDef, ast.AsyncFunctionDef)) and x.name == "macro"), None)
-        if fn is None:
+        top = tree.body
+        if not (top and isinstance(top[0], (ast.FunctionDef, ast.AsyncFunctionDef)) and top[0].name == "macro"):
             return ["no `def macro` emitted"]
+        fn = top[0]
+        if isinstance(fn, ast.AsyncFunctionDef) is not bool(self.is_async):
+            fails.append("macro function is async iff the environment is")
         params = [a.arg for a in fn.args.args]
-        if fn.args.vararg or fn.args.kwarg or fn.args.kwonlyargs or fn.args.defaults:
+        if fn.args.vararg or fn.args.kwarg or fn.args.kwonlyargs or fn.args.defaults or fn.args.posonlyargs:
             fails.append("macro function must take plain positional parameters")
         ref_events = [e for e in st.trace if e.kind == "call" and e.name == "symbols.ref"]
         decl_events = [e for e in st.trace if e.kind == "call" and e.name == "symbols.declare_parameter"]
+        inner = [e for e in st.trace if e.kind == "call" and e.name == "frame.inner"]
         term_of = {k: str(v[1]) for k, v in ph.items() if isinstance(v, tuple) and v[0] == "ident"}
         got = [term_of.get(p, p) for p in params]
-        # expected: refs of the declared parameters in order (first n ref events), then special parameters
+        # expected: refs of the declared parameters in order (first n ref events), then the special parameters
+        if len(ref_events) != 2 * n:
+            fails.append(f"{len(ref_events)} symbol references for {n} parameters (expected one per parameter in the signature and one per default block)")
+            return fails
         want = [str(e.result.t) for e in ref_events[:n]]
         for i, e in enumerate(ref_events[:n]):
             if e.args[0] is not names[i]:
                 fails.append(f"parameter {i} of the function is not the reference of node.args[{i}].name")
         flags = sc.value  # (frame, macro_ref)
-        mref = st.get(flags[1]).fields if isinstance(flags, tuple) else {}
+        if not (isinstance(flags, tuple) and len(flags) == 2 and isinstance(flags[1], Ref) and st.get(flags[1]).cls is C.MacroRef):
+            return ["macro_body does not return (frame, MacroRef)"]
+        if len(inner) != 1 or flags[0] != inner[0].result:
+            fails.append("the frame returned is not the macro's own inner frame")
+        mref = st.get(flags[1]).fields
+        if mref.get("node") != sc.node:
+            fails.append("MacroRef does not refer to the macro node")
+        want_caller_param = bool(r_caller) and not explicit
+        want_kwargs = bool(r_kwargs) and "kwargs" not in classes
+        want_varargs = bool(r_varargs) and "varargs" not in classes
+        wanted = [nm for w_, nm in ((want_caller_param, "caller"), (want_kwargs, "kwargs"), (want_varargs, "varargs")) if w_]
         specials = []
-        r_caller, r_kwargs, r_varargs = reads("caller"), reads("kwargs"), reads("varargs")
-        if None in (r_caller, r_kwargs, r_varargs):
-            return ["path does not decide which special names the body reads"]
-        shadow_kw = any(name_is(i, "kwargs") for i in range(n))
-        shadow_va = any(name_is(i, "varargs") for i in range(n))
-        if (shadow_kw is False and not all(name_isnt(i, "kwargs") for i in range(n))) or (shadow_va is False and not all(name_isnt(i, "varargs") for i in range(n))) or (not explicit and not no_explicit):
-            return ["path does not decide whether a declared parameter shadows a special name"]
-        want_caller_param = r_caller and no_explicit
-        want_kwargs = r_kwargs and not shadow_kw
-        want_varargs = r_varargs and not shadow_va
-        for want_it, nm in ((want_caller_param, "caller"), (want_kwargs, "kwargs"), (want_varargs, "varargs")):
-            if want_it:
-                ev = [e for e in decl_events if e.args and e.args[0] == nm]
-                if len(ev) != 1:
-                    fails.append(f"special parameter {nm} should be declared exactly once")
-                else:
-                    specials.append(str(ev[0].result.t))
-        extra_decl = [e.args[0] for e in decl_events if e.args[0] not in [nm for w_, nm in ((want_caller_param, "caller"), (want_kwargs, "kwargs"), (want_varargs, "varargs")) if w_]]
+        for nm in wanted:
+            ev = [e for e in decl_events if e.args and e.args[0] == nm]
+            if len(ev) != 1:
+                fails.append(f"special parameter {nm} should be declared exactly once")
+            else:
+                specials.append(str(ev[0].result.t))
+        extra_decl = [e.args[0] for e in decl_events if e.args[0] not in wanted]
         if extra_decl:
             fails.append(f"special parameters declared although not wanted: {extra_decl}")
         if got != want + specials:
             fails.append(f"parameter order {got} differs from declared params + [caller][kwargs][varargs] = {want + specials}")
         if mref.get("accesses_caller", False) is not bool(r_caller):
             fails.append(f"accesses_caller={mref.get('accesses_caller')} but body reads caller undeclared: {r_caller}")
-        if mref.get("accesses_kwargs", False) is not bool(want_kwargs):
+        if mref.get("accesses_kwargs", False) is not want_kwargs:
             fails.append(f"accesses_kwargs={mref.get('accesses_kwargs')} expected {want_kwargs}")
-        if mref.get("accesses_varargs", False) is not bool(want_varargs):
+        if mref.get("accesses_varargs", False) is not want_varargs:
             fails.append(f"accesses_varargs={mref.get('accesses_varargs')} expected {want_varargs}")
-        # defaults: `if p is missing: p = <default>` in parameter order
+        # defaults: `if p is missing: p = <default>` in parameter order, first thing in the function body
         ifs = [s for s in fn.body if isinstance(s, ast.If) and isinstance(s.test, ast.Compare) and isinstance(s.test.ops[0], ast.Is)
                and isinstance(s.test.comparators[0], ast.Name) and s.test.comparators[0].id == "missing"]
+        first_hole = next((k for k, s in enumerate(fn.body) if isinstance(s, ast.Expr) and emit.is_hole_name(s.value)), len(fn.body))
         if len(ifs) != n:
             fails.append(f"{len(ifs)} `if p is missing` blocks for {n} parameters")
-        else:
-            for i, s in enumerate(ifs):
-                tgt = term_of.get(getattr(s.test.left, "id", None))
-                ev = [e for e in ref_events[n:] if str(e.result.t) == tgt]
-                if not ev or ev[0].args[0] is not names[i]:
-                    fails.append(f"default block {i} does not test parameter {i}")
-                body = s.body[0] if s.body else None
-                if not isinstance(body, ast.Assign):
-                    fails.append(f"default block {i} does not assign")
-                    continue
-                if i >= n - d:
-                    k = i - (n - d)
-                    v = body.value
-                    if not (isinstance(v, ast.Name) and v.id in ph and isinstance(ph[v.id], emit.Hole) and ph[v.id].path == f"node.defaults[{k}]"):
-                        fails.append(f"parameter {i} should take default {k} (defaults align with the trailing parameters)")
+            return fails
+        if any(fn.body.index(s) > first_hole for s in ifs):
+            fails.append("a default block comes after the macro body")
+        visits = {id(e): e for e in st.trace if e.kind == "call" and e.name == "visit"}
+        order = [e for e in st.trace if e.kind == "call" and e.name in ("visit", "mark_parameter_stored", "push_parameter_definitions", "pop_parameter_definitions")]
+        for i, s in enumerate(ifs):
+            tgt = term_of.get(getattr(s.test.left, "id", None))
+            ev = ref_events[n + i]
+            if str(ev.result.t) != tgt or ev.args[0] is not names[i]:
+                fails.append(f"default block {i} does not test parameter {i}")
+            if s.orelse or len(s.body) != 1 or not isinstance(s.body[0], ast.Assign):
+                fails.append(f"default block {i} is not a single assignment")
+                continue
+            asg = s.body[0]
+            if not (len(asg.targets) == 1 and isinstance(asg.targets[0], ast.Name) and term_of.get(asg.targets[0].id) == tgt):
+                fails.append(f"default block {i} does not assign the parameter it tests")
+            if i >= n - d:
+                k = i - (n - d)
+                v = asg.value
+                if not (isinstance(v, ast.Name) and v.id in ph and isinstance(ph[v.id], emit.Hole) and ph[v.id].path == f"node.defaults[{k}]"):
+                    fails.append(f"parameter {i} should take default {k} (defaults align with the trailing parameters)")
+            else:
+                v = asg.value
+                if not (isinstance(v, ast.Call) and emit.call_name(v) == "undefined"):
+                    fails.append(f"parameter {i} has no default and should become undefined(...)")
                 else:
-                    if not (isinstance(body.value, ast.Call) and emit.call_name(body.value) == "undefined"):
-                        fails.append(f"parameter {i} has no default and should become undefined(...)")
+                    kw = {k_.arg: k_.value for k_ in v.keywords}
+                    nmv = kw.get("name")
+                    key = f"'{nmv.value}'" if isinstance(nmv, ast.Constant) and isinstance(nmv.value, str) else None
+                    if not (key in ph and ph[key][0] == "repr" and str(ph[key][1]) == str(names[i].t)):
+                        fails.append(f"undefined value of parameter {i} does not carry the parameter's name")
+        # defaults are evaluated in the macro's frame, each after the earlier parameters were marked stored
+        seq = []
+        for e in order:
+            if e.name == "visit" and e.args and e.args[0] in self.def_refs:
+                seq.append(("default", self.def_refs.index(e.args[0]), e.args[1] if len(e.args) > 1 else None))
+            elif e.name == "mark_parameter_stored":
+                seq.append(("stored", str(e.args[0].t) if isinstance(e.args[0], Sym) else None, None))
+            elif e.name != "visit":
+                seq.append((e.name, None, None))
+        exp = [("push_parameter_definitions", None, None)]
+        for i in range(n):
+            if i >= n - d:
+                exp.append(("default", i - (n - d), flags[0]))
+            exp.append(("stored", str(ref_events[n + i].result.t), None))
+        exp.append(("pop_parameter_definitions", None, None))
+        if seq != exp:
+            fails.append("defaults are not evaluated in parameter order in the macro's frame with each earlier parameter marked stored "
+                         f"(got {[(a, b) for a, b, _ in seq]}, expected {[(a, b) for a, b, _ in exp]}; frames {'agree' if [c for _, _, c in seq] == [c for _, _, c in exp] else 'differ'})")
+        # the body is visited in the macro's frame after the defaults, and its buffer is returned unescaped
+        rets = [s for s in fn.body if isinstance(s, ast.Return)]
+        if not (len(rets) == 1 and isinstance(rets[0].value, ast.Call) and emit.call_name(rets[0].value) == "concat"):
+            fails.append("macro function does not return concat(<buffer>) (Macro._invoke applies the escaping)")
         return fails
 
+
+# ------------------------------------------------------------------------------------------- macro_def
 
 def macro_def_table(task, tier, seed):
     """macro_def passes (accesses_kwargs, accesses_varargs, accesses_caller) in the positions of
     Macro.__init__'s (catch_kwargs, catch_varargs, caller)."""
-    import time
     rs = []
     sig = list(inspect.signature(R.Macro.__init__).parameters)
     ok_sig = sig[:9] == ["self", "environment", "func", "name", "arguments", "catch_kwargs", "catch_varargs", "caller", "default_autoescape"]
     rs.append(Res("C06.emit.macro_def.init_signature", "discharged" if ok_sig else "refuted", "table", 0, f"Macro.__init__ parameters: {sig}", "table", None if ok_sig else {"table": "Macro.__init__"}))
-    for n in (0, 1, 2):
-        def fields(st):
-            return {}
-        from pyvc.values import State
-        from pyvc.engine import Interp
-        I = Interp()
-        emit.install(I)
-        st = State()
-        g = emit.Gen(st)
-        margs = [emit.make_node(st, N.Name, f"node.args[{i}]") for i in range(n)]
-        node = emit.make_node(st, N.Macro, "node", fields={"args": st.alloc(HList(items=margs), initial=True)})
-        flags = {k: emit.sym(k, "bool") for k in ("accesses_caller", "accesses_kwargs", "accesses_varargs")}
-        from pyvc.values import HObj
-        mref = st.alloc(HObj(C.MacroRef, fields=dict(flags, node=node)), initial=True)
-        from pyvc import extract
-        clo = I.closure_of_function(extract.resolve("jinja2.compiler:CodeGenerator.macro_def"))
-        try:
-            results = I.call_closure(st, clo, [g.gen, mref, g.frame], {})
-        except Unsupported as ex:
-            rs.append(Res(f"C06.emit.macro_def[n={n}].engine", "unknown", "pyvc-emit", 0, str(ex), "emission"))
-            continue
-        for i, (s, v) in enumerate(results):
-            sc = emit.Schema(list(s.ghost.get("out", [])), list(s.pc), [], "raise" if isinstance(v, Raised) else "return", s)
-            txt, ph = sc.texts()[0]
-            fails = []
+    from pyvc.engine import Interp
+    from pyvc import extract
+    for cls in (N.Macro, N.CallBlock):
+        for n in (0, 1, 2, 3):
+            I = Interp()
+            emit.install(I)
+            st = State()
+            g = emit.Gen(st)
+            margs = [emit.make_node(st, N.Name, f"node.args[{i}]") for i in range(n)]
+            node = emit.make_node(st, cls, "node", fields={"args": st.alloc(HList(items=margs), initial=True)})
+            flags = {k: emit.sym(k, "bool") for k in ("accesses_caller", "accesses_kwargs", "accesses_varargs")}
+            mref = st.alloc(HObj(C.MacroRef, fields=dict(flags, node=node)), initial=True)
+            clo = I.closure_of_function(extract.resolve("jinja2.compiler:CodeGenerator.macro_def"))
+            tag = f"C06.emit.macro_def[{cls.__name__},n={n}]"
             try:
-                t = emit.parse_expr(txt)
-            except SyntaxError as ex:
-                fails.append(f"does not parse: {txt!r}")
+                results = I.call_closure(st, clo, [g.gen, mref, g.frame], {})
+            except Unsupported as ex:
+                rs.append(Res(f"{tag}.engine", "unknown", "pyvc-emit", 0, str(ex), "emission"))
+                continue
+            for i, (s, v) in enumerate(results):
+                sc = emit.Schema(list(s.ghost.get("out", [])), list(s.pc), [], "raise" if isinstance(v, Raised) else "return", s)
+                txt, ph = sc.texts()[0]
+                fails = []
                 t = None
-            if t is not None:
-                if not (isinstance(t, ast.Call) and emit.call_name(t) == "Macro" and len(t.args) == 8):
-                    fails.append(f"not Macro(...) with 8 arguments: {txt!r}")
+                if isinstance(v, Raised):
+                    fails.append(f"raises {v.exc!r}")
                 else:
-                    a = t.args
-                    if not (isinstance(a[0], ast.Name) and a[0].id == "environment" and isinstance(a[1], ast.Name) and a[1].id == "macro"):
-                        fails.append("first arguments are not (environment, macro)")
-                    if not (isinstance(a[3], ast.Tuple) and len(a[3].elts) == n):
-                        fails.append(f"argument tuple has {len(getattr(a[3], 'elts', []))} names for {n} parameters")
-                    # flags are rendered through repr(): symbolic bools show as If(flag,'True','False') placeholders
-                    order = [str(ph.get(x.id, ("", ""))[1]) if isinstance(x, ast.Name) else ast.unparse(x) for x in a[4:7]]
-                    want = ["accesses_kwargs", "accesses_varargs", "accesses_caller"]
-                    if not all(w in o for w, o in zip(want, order)):
-                        fails.append(f"flag arguments {order} are not (accesses_kwargs, accesses_varargs, accesses_caller)")
-                    if ast.unparse(a[7]) != "context.eval_ctx.autoescape":
-                        fails.append("default autoescape argument is not context.eval_ctx.autoescape")
-            rs.append(Res(f"C06.emit.macro_def[n={n}]#p{i}", "refuted" if fails else "discharged", "pyvc-emit", 0, "; ".join(fails), "emission",
-                          {"schema": txt} if fails else None))
+                    try:
+                        t = emit.parse_expr(txt)
+                    except SyntaxError:
+                        fails.append(f"does not parse: {txt!r}")
+                if t is not None:
+                    if not (isinstance(t, ast.Call) and emit.call_name(t) == "Macro" and len(t.args) == 8 and not t.keywords):
+                        fails.append(f"not Macro(...) with 8 positional arguments: {txt!r}")
+                    else:
+                        a = t.args
+                        if not (isinstance(a[0], ast.Name) and a[0].id == "environment" and isinstance(a[1], ast.Name) and a[1].id == "macro"):
+                            fails.append("first arguments are not (environment, macro)")
+                        # the name: repr(node.name) for a Macro, None for a call block
+                        if cls is N.Macro:
+                            key = f"'{a[2].value}'" if isinstance(a[2], ast.Constant) and isinstance(a[2].value, str) else None
+                            if not (key in ph and ph[key][0] == "repr" and str(ph[key][1]) == "node.name"):
+                                fails.append("argument 2 is not the macro's name")
+                        elif not (isinstance(a[2], ast.Constant) and a[2].value is None):
+                            fails.append("a call block's macro has no name (None)")
+                        if not (isinstance(a[3], ast.Tuple) and len(a[3].elts) == n):
+                            fails.append(f"argument tuple has {len(getattr(a[3], 'elts', []))} names for {n} parameters")
+                        else:
+                            for j, el in enumerate(a[3].elts):
+                                key = f"'{el.value}'" if isinstance(el, ast.Constant) and isinstance(el.value, str) else None
+                                if not (key in ph and ph[key][0] == "repr" and str(ph[key][1]) == f"node.args[{j}].name"):
+                                    fails.append(f"element {j} of the argument tuple is not the name of parameter {j}")
+                        # flags are rendered through repr(): symbolic bools show as If(flag,'True','False') placeholders
+                        order = [str(ph.get(x.id, ("", ""))[1]) if isinstance(x, ast.Name) else ast.unparse(x) for x in a[4:7]]
+                        want = ["accesses_kwargs", "accesses_varargs", "accesses_caller"]
+                        if not all(w in o and not any(w2 in o for w2 in want if w2 != w) for w, o in zip(want, order)):
+                            fails.append(f"flag arguments {order} are not (accesses_kwargs, accesses_varargs, accesses_caller)")
+                        if ast.unparse(a[7]) != "context.eval_ctx.autoescape":
+                            fails.append("default autoescape argument is not context.eval_ctx.autoescape")
+                rs.append(Res(f"{tag}#p{i}", "refuted" if fails else "discharged", "pyvc-emit", 0, "; ".join(fails), "emission",
+                              {"schema": txt} if fails else None))
     return rs
 
 
-TASKS = [MacroBody(n, d, cls) for cls in ("Macro", "CallBlock") for n in range(0, 4) for d in range(0, n + 1) if not (cls == "CallBlock" and n > 2)] + \
-        [FnTask("C06", "C06.emit.macro_def", macro_def_table, "emission", native_macros)]
+# ------------------------------------------------------------------------------------------- visit_Macro / visit_CallBlock
+
+def configure_modular(I):
+    """macro_body / macro_def through their contracts (proved above): macro_body writes the function `macro` and
+    returns (its frame, a MacroRef of the node); macro_def writes the Macro(...) expression for that MacroRef."""
+    def macro_body(I_, st, args, kwargs, node):
+        self, nd, frame = args[0], args[1], args[2]
+        fr = st.alloc(HObj(C.Frame, fields=dict(st.get(frame).fields), path="macro_frame"))
+        mr = st.alloc(HObj(C.MacroRef, fields={"node": nd}, path="macro_ref"))
+        st.trace.append(Event("call", "macro_body", [nd, frame], {}, (fr, mr)))
+        out = []
+        for s, _ in I_.call_method(st, self, "writeline", ["__macro_body__()"], {}, node):
+            out.append((s, (fr, mr)))
+        return out
+
+    def macro_def(I_, st, args, kwargs, node):
+        self = args[0]
+        st.trace.append(Event("call", "macro_def", list(args[1:]), {}, None))
+        return [(s, None) for s, _ in I_.call_method(st, self, "write", ["__macro_def__()"], {}, node)]
+
+    I.specs["CodeGenerator.macro_body"] = macro_body
+    I.specs["CodeGenerator.macro_def"] = macro_def
+
+
+def _def_follows_body(sc):
+    body = [e for e in sc.st.trace if e.kind == "call" and e.name == "macro_body"]
+    mdef = [e for e in sc.st.trace if e.kind == "call" and e.name == "macro_def"]
+    if len(body) != 1 or len(mdef) != 1:
+        return ["macro_body and macro_def are not each called exactly once"]
+    fr, mr = body[0].result
+    if body[0].args[0] != sc.node or body[0].args[1] != sc.gen.frame:
+        return ["macro_body is not run on the node in the enclosing frame"]
+    if list(mdef[0].args) != [mr, fr]:
+        return ["macro_def is not given the (macro_ref, frame) macro_body returned"]
+    return []
+
+
+def visit_macro_pred(sc, tree, ph, txt):
+    if sc.outcome == "raise":
+        return [f"raises {sc.value!r}"]
+    fails = _def_follows_body(sc)
+    body = tree.body
+    if not (body and isinstance(body[0], ast.Expr) and ast.unparse(body[0]) == "__macro_body__()"):
+        return fails + ["the macro function is not emitted first"]
+    asg = [s for s in body if isinstance(s, ast.Assign)]
+    if len(asg) != 1 or body[-1] is not asg[0] or ast.unparse(asg[0].value) != "__macro_def__()":
+        return fails + [f"the Macro object is not assigned last: {txt!r}"]
+    refs = [e for e in sc.st.trace if e.kind == "call" and e.name == "symbols.ref"]
+    name = sc.st.get(sc.node).fields.get("name")
+    tg = asg[0].targets
+    local = [t for t in tg if isinstance(t, ast.Name)]
+    if not (len(local) == 1 and len(refs) == 1 and refs[0].args[0] is name and ph.get(local[0].id, (None, None))[0] == "ident"
+            and str(ph[local[0].id][1]) == str(refs[0].result.t)):
+        fails.append("the Macro object is not bound to the local reference of the macro's name")
+    top = sc.holds(z3.Bool("frame.toplevel"))
+    ctxv = [t for t in tg if isinstance(t, ast.Subscript) and ast.unparse(t.value) == "context.vars"]
+    if top:
+        key = [f"'{t.slice.value}'" for t in ctxv if isinstance(t.slice, ast.Constant)]
+        if not (len(ctxv) == 1 and key and key[0] in ph and str(ph[key[0]][1]) == "node.name"):
+            fails.append("a top-level macro is not stored in context.vars[<name>] (it must be importable / callable from Python)")
+        exported = [s for s in body if isinstance(s, ast.Expr) and isinstance(s.value, ast.Call) and emit.call_name(s.value) == "context.exported_vars.add"]
+        pref = z3.PrefixOf(z3.StringVal("_"), name.t)
+        is_private = True if sc.holds(pref) else (False if sc.holds(z3.Not(pref)) else None)
+        if is_private is None or bool(exported) == is_private:
+            fails.append("a top-level macro is exported iff its name does not start with an underscore")
+        for ex in exported:
+            a0 = ex.value.args[0] if ex.value.args else None
+            key = f"'{a0.value}'" if isinstance(a0, ast.Constant) and isinstance(a0.value, str) else None
+            if not (key in ph and str(ph[key][1]) == "node.name"):
+                fails.append("the exported name is not the macro's name")
+    elif ctxv or len(tg) != 1:
+        fails.append("a nested macro must only be bound locally")
+    return fails
+
+
+def visit_callblock_pred(sc, tree, ph, txt):
+    if sc.outcome == "raise":
+        return [f"raises {sc.value!r}"]
+    fails = _def_follows_body(sc)
+    body = tree.body
+    if not (len(body) == 3 and ast.unparse(body[0]) == "__macro_body__()" and isinstance(body[1], ast.Assign)
+            and ast.unparse(body[1]) == "caller = __macro_def__()"):
+        return fails + [f"call block is not `<macro function>; caller = Macro(...); <call>`: {txt!r}"]
+    holes = [n for n in ast.walk(body[2]) if isinstance(n, ast.Name) and n.id in ph and isinstance(ph[n.id], emit.Hole)]
+    if not (len(holes) == 1 and holes[0].id in ph and ph[holes[0].id].path == "node.call" and getattr(ph[holes[0].id], "via", None) == "visit_Call"
+            and ph[holes[0].id].kwargs.get("forward_caller") is True):
+        fails.append("the call is not emitted by visit_Call(node.call, frame, forward_caller=True)")
+    return fails
+
+
+# ------------------------------------------------------------------------------------------- Parser.parse_signature
+
+class _Stream:
+    """abstract TokenStream: `current.type`, expect(type), skip_if(type) over an arbitrary token sequence"""
+
+
+class _Tok:
+    pass
+
+
+class ParseSignature(VC):
+    """Parser.parse_signature over an arbitrary token stream (unbounded number of parameters).
+
+    Ghost (written by the abstract callees, independent of the lists the code builds): k = number of parameter
+    targets parsed so far, param(i) = the i-th target parse_assign_target returned, has_default(i) = the answer of the
+    skip_if('assign') that followed it, dexpr(i) = the expression parse_expression returned after that.
+    Postcondition (statement: "unfilled parameters take their default"; the compiler and Macro.__call__ pair default j
+    of d with parameter n-d+j): on return node.args = [param(0..n)], d = len(node.defaults) <= n,
+    has_default(i) <=> i >= n-d, and node.defaults[j] = dexpr(n-d+j).  Hence a parameter without default after one with
+    default never returns normally; every exception is a TemplateSyntaxError."""
+    prop = "C06"
+    target = "jinja2.parser:Parser.parse_signature"
+    timeout_quick = 20000
+
+    def __init__(self):
+        super().__init__("C06", "C06.parse_signature")
+
+    # ---- ghost helpers
+    @staticmethod
+    def _g(st):
+        return st.ghost["sig"]
+
+    @staticmethod
+    def _set(st, **kw):
+        st.ghost = dict(st.ghost)
+        st.ghost["sig"] = dict(st.ghost["sig"], **kw)
+
+    def configure(self, I):
+        c = self
+        I.inline.add("jinja2.parser:Parser.fail")
+        ln = lambda node: getattr(node, "lineno", None)  # noqa: E731
+
+        def syntax_error(st, node, what):
+            e = Exc(TemplateSyntaxError, (what,), origin=ln(node))
+            e.from_call = what
+            return Raised(e)
+
+        def cur_type(st):
+            return z3.Select(c.types, to_term(st.get(c.stream).fields["pos"], "int"))
+
+        def advance(st, by=1):
+            h = st.get(c.stream)
+            h.fields["pos"] = Sym(to_term(h.fields["pos"], "int") + by, "int")
+
+        def expect(I_, st, args, kwargs, node):
+            out = []
+            for s, b in I_.fork_bool(st, cur_type(st) == z3.StringVal(args[1])):
+                if b:
+                    advance(s)
+                    out.append((s, None))
+                else:
+                    out.append((s, syntax_error(s, node, "expect")))
+            return out
+
+        def skip_if(I_, st, args, kwargs, node):
+            out = []
+            for s, b in I_.fork_bool(st, cur_type(st) == z3.StringVal(args[1])):
+                if b:
+                    advance(s)
+                if args[1] == "assign":
+                    g = c._g(s)
+                    c._set(s, HD=z3.Store(g["HD"], g["k"] - 1, z3.BoolVal(b)))
+                out.append((s, b))
+            return out
+
+        I.specs["_Stream.expect"] = expect
+        I.specs["_Stream.skip_if"] = skip_if
+
+        def getattr_stream(I_, st, obj, name, node):
+            if isinstance(obj, Ref) and isinstance(st.heap.get(obj.id), HObj) and st.get(obj).cls is _Stream and name == "current":
+                t = st.alloc(HObj(_Tok, fields={"type": Sym(cur_type(st), "str"), "lineno": fresh("tok_lineno", "int")}))
+                return [(st, t)]
+            return None
+
+        I.attr_hook = getattr_stream
+
+        def parse_assign_target(I_, st, args, kwargs, node):
+            # contract (C01): a Name node or TemplateSyntaxError; consumes tokens
+            if kwargs.get("name_only") is not True:
+                raise Unsupported("parse_assign_target without name_only in a signature", node)
+            s_err = st.fork()
+            out = [(s_err, syntax_error(s_err, node, "parse_assign_target"))]
+            advance(st)
+            r = st.alloc(HObj(N.Name, fields={"name": fresh("pname", "str"), "ctx": "store"}, path="param"))
+            st.get(r).plain_setattr = True
+            g = c._g(st)
+            c._set(st, P=z3.Store(g["P"], g["k"], to_term(r, "obj")), k=g["k"] + 1)
+            st.trace.append(Event("call", "parse_assign_target", [], dict(kwargs), r))
+            out.append((st, r))
+            return out
+
+        def parse_expression(I_, st, args, kwargs, node):
+            s_err = st.fork()
+            out = [(s_err, syntax_error(s_err, node, "parse_expression"))]
+            adv = fresh("consumed", "int")
+            st.assume(adv.t >= 1)
+            advance(st, adv.t)
+            r = fresh("default_expr", "obj")
+            g = c._g(st)
+            c._set(st, DE=z3.Store(g["DE"], g["k"] - 1, r.t))
+            st.trace.append(Event("call", "parse_expression", [], dict(kwargs), r))
+            out.append((st, r))
+            return out
+
+        def set_ctx(I_, st, args, kwargs, node):
+            st.get(args[0]).fields["ctx"] = args[1]
+            return [(st, args[0])]
+
+        I.specs["Parser.parse_assign_target"] = parse_assign_target
+        I.specs["Parser.parse_expression"] = parse_expression
+        I.specs["Name.set_ctx"] = set_ctx
+
+        def inv(ctx):
+            return c.aligned(ctx.st, loop_head=True)
+
+        def heap(st, local):
+            I_s, B = z3.IntSort(), z3.BoolSort()
+            c._set(st, HD=z3.Const(fresh_name("HD"), z3.ArraySort(I_s, B)), DE=z3.Const(fresh_name("DE"), z3.ArraySort(I_s, Obj)),
+                   P=z3.Const(fresh_name("P"), z3.ArraySort(I_s, Obj)), k=z3.Int(fresh_name("k")))
+            for f in ("args", "defaults"):
+                r = st.get(c.node).fields[f]
+                st.heap[r.id] = HList(arr=z3.Const(fresh_name(f + "_arr"), z3.ArraySort(I_s, Obj)), n=z3.Int(fresh_name(f + "_n")), k="obj")
+            st.get(c.stream).fields["pos"] = fresh("pos", "int")
+
+        I.loops[("Parser.parse_signature", 0)] = LoopSpec(inv, havoc={"arg": "obj"}, heap=heap, name="signature_loop")
+
+    def aligned(self, st, loop_head=False):
+        """args = param[0..n), defaults = [dexpr(i) | has_default(i)] = dexpr[n-d..n), has_default(i) <=> i >= n-d"""
+        f = st.get(self.node).fields
+        if not (isinstance(f.get("args"), Ref) and isinstance(f.get("defaults"), Ref)):
+            return [z3.BoolVal(False)]
+        (aA, n, _), (aD, d, _) = A.list_terms(st, f["args"]), A.list_terms(st, f["defaults"])
+        g = self._g(st)
+        i = z3.Int(fresh_name("i"))
+        return [
+            g["k"] == n, 0 <= d, d <= n,
+            z3.ForAll([i], z3.Implies(z3.And(0 <= i, i < n), z3.Select(g["HD"], i) == (i >= n - d))),
+            z3.ForAll([i], z3.Implies(z3.And(0 <= i, i < d), z3.Select(aD, i) == z3.Select(g["DE"], n - d + i))),
+            z3.ForAll([i], z3.Implies(z3.And(0 <= i, i < n), z3.Select(aA, i) == z3.Select(g["P"], i))),
+        ]
+
+    def setup(self, I, st):
+        I_s = z3.IntSort()
+        self.types = z3.Const("token_types", z3.ArraySort(I_s, z3.StringSort()))
+        self.stream = st.alloc(HObj(_Stream, fields={"pos": sym("pos0", "int")}, path="stream"), initial=True)
+        self.parser = st.alloc(HObj(P.Parser, fields={"stream": self.stream, "name": sym("template_name", "obj"), "filename": sym("template_filename", "obj")},
+                                    path="self"), initial=True)
+        self.node = st.alloc(HObj(N.Macro, fields={"lineno": sym("lineno", "int")}, path="node"), initial=True)
+        st.get(self.node).plain_setattr = True
+        st.ghost = dict(st.ghost)
+        st.ghost["sig"] = {"HD": z3.Const("HD0", z3.ArraySort(I_s, z3.BoolSort())), "DE": z3.Const("DE0", z3.ArraySort(I_s, Obj)),
+                           "P": z3.Const("P0", z3.ArraySort(I_s, Obj)), "k": z3.IntVal(0)}
+        return [self.parser, self.node], {}
+
+    def p_aligned(self, pre, out):
+        if out.raised:
+            return None
+        return z3.And(*self.aligned(out.st))
+
+    def p_raises(self, pre, out):
+        if not out.raised:
+            return None
+        cls = out.value.cls
+        return cls is not None and issubclass(cls, TemplateSyntaxError)
+
+    def p_param_ctx(self, pre, out):
+        """every parameter node parsed in the iterations shown on this path is given the `param` context"""
+        if out.raised:
+            return None
+        for e in out.st.trace:
+            if e.kind == "call" and e.name == "parse_assign_target" and isinstance(e.result, Ref):
+                if out.st.get(e.result).fields.get("ctx") != "param":
+                    return False
+        return True
+
+    posts = [("defaults_belong_to_trailing_parameters", p_aligned), ("only_TemplateSyntaxError", p_raises), ("parameters_in_param_context", p_param_ctx)]
+
+    def concretize(self, model, pre, out):
+        return {"parse_signature": True}
+
+    def replay(self, w):
+        return native_signatures(w)
+
+
+def native_signatures(w=None):
+    """Native oracle for parse_signature: all signatures of up to 4 parameters with any default pattern."""
+    import itertools
+    import jinja2
+    env = jinja2.Environment()
+    problems = []
+    for n in range(0, 5):
+        for pat in itertools.product((False, True), repeat=n):
+            sig = ", ".join(f"p{i}" + (f"={10 + i}" if pat[i] else "") for i in range(n))
+            src = "{% macro m(" + sig + ") %}{% endmacro %}"
+            legal = all(pat[i] or not any(pat[:i]) for i in range(n))
+            try:
+                node = env.parse(src).body[0]
+            except jinja2.TemplateSyntaxError:
+                if legal:
+                    problems.append(f"{sig!r} rejected")
+                continue
+            except Exception as ex:
+                problems.append(f"{sig!r}: {type(ex).__name__}")
+                continue
+            if not legal:
+                problems.append(f"{sig!r} accepted although a non-default parameter follows a default")
+                continue
+            names = [a.name for a in node.args]
+            d = len(node.defaults)
+            want_defaults = [10 + i for i in range(n) if pat[i]]
+            got_defaults = [getattr(x, "value", None) for x in node.defaults]
+            if names != [f"p{i}" for i in range(n)] or got_defaults != want_defaults or [i >= n - d for i in range(n)] != list(pat):
+                problems.append(f"{sig!r}: args={names} defaults={got_defaults}")
+            if any(a.ctx != "param" for a in node.args):
+                problems.append(f"{sig!r}: parameter context {[a.ctx for a in node.args]}")
+    return (bool(problems), "; ".join(problems[:3]) or "parse_signature aligns defaults with the trailing parameters on all signatures up to 4 parameters")
+
+
+# ------------------------------------------------------------------------------------------- tasks
+
+def _macro_body_tasks():
+    out = []
+    for cls in ("Macro", "CallBlock"):
+        for n in range(0, 4):
+            if cls == "CallBlock" and n > 2:
+                continue
+            for d in range(0, n + 1):
+                for is_async in (False, True):
+                    if is_async and n == 3 and d not in (0, 3):
+                        continue  # async only changes the `def` keyword; the largest shapes are run in sync mode
+                    out.append(MacroBody(n, d, cls, is_async))
+    return out
+
+
+TASKS = _macro_body_tasks() + [
+    FnTask("C06", "C06.emit.macro_def", macro_def_table, "emission", native_macros),
+    EmitTask("C06", "C06.emit.visit_Macro", "jinja2.compiler:CodeGenerator.visit_Macro", N.Macro, visit_macro_pred, mode="stmts",
+             buffers=(None, "t_buf"), replay_fn=native_macros, configure=configure_modular, min_paths=3),
+    EmitTask("C06", "C06.emit.visit_CallBlock", "jinja2.compiler:CodeGenerator.visit_CallBlock", N.CallBlock, visit_callblock_pred, mode="stmts",
+             buffers=(None, "t_buf"), replay_fn=native_macros, configure=configure_modular, min_paths=2),
+    ParseSignature(),
+]
